@@ -29,6 +29,19 @@ re-entrantly on the same OS thread: deterministic, no waits.  On the asyncio twi
 `await` (a switching point); while the host's loop is running, nested harness calls drive their
 coroutine by hand (`_drive`): nothing in this in-memory world ever suspends, and if something did the
 nested call fails loudly instead of blocking.
+
+Lazy initialisation (`PubSubWorld(..., lazy_init=True)`): the world does NOT call `manager.initialize()` and
+leaves `server.manager_initialized` alone: the host is initialised by the library itself, in
+`_handle_eio_connect` of its first engine.io connection, as in production.  Every listener the library
+starts (`server.start_background_task(manager._thread)`) is recorded as a SUBSCRIPTION of its own on the
+channel (own cursor, starting at the channel's length at that moment: as with Redis/Kombu every `_listen()`
+is a subscription that sees every later message) and `deliver()` drives EVERY subscription of the host: a
+host that started two listeners handles every channel message twice, as it would with real threads.
+`init_hook(hid, fn, at)` scripts what another thread does while `initialize()` of that host is in progress
+(`at`: 'before' / 'after' the base class's `initialize()` body): `fn()` runs once, re-entrantly, inside the first
+`initialize()` call on that host — e.g. `open()` of a second transport on the same host = a second first connection
+that arrives while the first one is still initialising the manager (threaded servers; on asyncio nothing
+can run there: `_handle_eio_connect` has no await between the flag test and the synchronous `initialize()`).
 """
 import asyncio
 import pickle
@@ -153,6 +166,24 @@ class _Log:
         pass
 
 
+def _hooked_initialize(m, base_initialize):
+    """`initialize()` of the in-memory managers: counts the calls; the first one runs the scripted
+    `init_hook` (what another thread does meanwhile) before or after the real body"""
+    m.init_calls += 1
+    hook, m.init_hook = m.init_hook, None
+
+    def fire():
+        try:
+            hook[1]()
+        except BaseException as ex:   # noqa  a harness error must not look like the library's
+            m.init_hook_error = ex
+    if hook is not None and hook[0] == 'before':
+        fire()
+    base_initialize()
+    if hook is not None and hook[0] != 'before':
+        fire()
+
+
 def _mixin(base, is_async):
     if not is_async:
         class Mem(base):
@@ -162,6 +193,12 @@ def _mixin(base, is_async):
                 self.chan = chan
                 self.cursor = 0
                 self.limit = 0
+                self.init_calls = 0
+                self.init_hook = None        # (at, fn): runs once inside the first initialize()
+                self.init_hook_error = None
+
+            def initialize(self):
+                _hooked_initialize(self, super().initialize)
 
             def _publish(self, data):
                 self.chan.published.append((self.host_id, data))
@@ -183,6 +220,12 @@ def _mixin(base, is_async):
             self.chan = chan
             self.cursor = 0
             self.limit = 0
+            self.init_calls = 0
+            self.init_hook = None
+            self.init_hook_error = None
+
+        def initialize(self):
+            _hooked_initialize(self, super().initialize)
 
         async def _publish(self, data):
             self.chan.published.append((self.host_id, data))
@@ -206,11 +249,21 @@ def manager_class(family):
     return _mixin(PubSubManager, False)
 
 
+class _Started:
+    """what `start_background_task(manager._thread)` returns on a lazily initialised host: the listener
+    is not run as a task, `deliver()` drives it"""
+
+    def join(self, timeout=None):
+        return None
+
+
 class PubSubWorld:
     """`n` hosts + one write-only manager on one channel."""
 
-    def __init__(self, family, n_hosts, namespaces=('/',), host_ids=None, wo_id='wo'):
+    def __init__(self, family, n_hosts, namespaces=('/',), host_ids=None, wo_id='wo', lazy_init=False):
         self.family = family
+        self.lazy = lazy_init
+        self.subs = []                # lazy_init: per host, the cursors of the listeners the library started
         self.is_async = family == 'asyncio'
         self.chan = Channel()
         self.log = []
@@ -223,9 +276,13 @@ class PubSubWorld:
         for hid in self.ids:
             m = cls(self.chan, hid)
             w = W.ServerWorld(family, manager=m, namespaces=list(namespaces), logger=_Log(self.log, hid))
-            m.initialize()             # what the first request would do
-            w.sio.manager_initialized = True
-            w.background.clear()       # the listener task is never started: deliver() runs it
+            if lazy_init:
+                self.subs.append([])
+                self._catch_listeners(w, m, self.subs[-1])
+            else:
+                m.initialize()             # what the first request would do
+                w.sio.manager_initialized = True
+                w.background.clear()       # the listener task is never started: deliver() runs it
             for ns in namespaces:
                 w.sio.on('disconnect', self._disc_handler(hid), namespace=ns)
             self.hosts.append(w)
@@ -237,6 +294,30 @@ class PubSubWorld:
         self.wo_loop = asyncio.new_event_loop() if self.is_async else None
         self.where = {}               # tid -> host index
         self.disc_fault = None        # callable(host, sid, ns) -> exception to raise or None
+
+    # ---- lazy initialisation: the library starts the listeners
+    def _catch_listeners(self, w, m, subs):
+        orig = w.sio.start_background_task
+
+        def start_background_task(target, *a, **k):
+            if target == m._thread:
+                subs.append([len(self.chan.msgs)])     # a subscription of its own, from here on
+                return _Started()
+            return orig(target, *a, **k)
+        w.sio.start_background_task = start_background_task
+
+    def init_hook(self, hid, fn, at='after'):
+        """run `fn()` once, re-entrantly, inside the first `manager.initialize()` on host `hid`"""
+        self.mgr[self.index(hid)].init_hook = (at, fn)
+
+    def init_state(self, hid):
+        """-> (initialize() calls, listeners started, server.manager_initialized) of a lazily initialised host;
+        an exception of the scripted hook itself is re-raised here"""
+        i = self.index(hid)
+        m = self.mgr[i]
+        if m.init_hook_error is not None:
+            raise m.init_hook_error
+        return (m.init_calls, len(self.subs[i]), bool(self.hosts[i].sio.manager_initialized))
 
     # ---- interleaving inside a call
     def _wrap_writes(self, i, w):
@@ -386,6 +467,19 @@ class PubSubWorld:
         until the listener returns; -> ('pending', where it is suspended) if it has not finished by then."""
         i = self.index(hid)
         m = self.mgr[i]
+        if self.lazy:
+            # every listener the library started consumes the channel through its own subscription
+            out = ('ok', None)
+            for sub in list(self.subs[i]):
+                m.cursor = sub[0]
+                r = self._deliver_one(i, m, k, quiescent)
+                sub[0] = m.cursor
+                if out[0] == 'ok':
+                    out = r
+            return out
+        return self._deliver_one(i, m, k, quiescent)
+
+    def _deliver_one(self, i, m, k, quiescent):
         m.limit = min(len(self.chan.msgs), m.cursor + k)
         w = self.hosts[i]
         try:
@@ -406,6 +500,8 @@ class PubSubWorld:
         return {hid: m.cursor for hid, m in zip(self.ids, self.mgr)}
 
     def drained(self):
+        if self.lazy:
+            return all(c[0] == len(self.chan.msgs) for subs in self.subs for c in subs)
         return all(m.cursor == len(self.chan.msgs) for m in self.mgr)
 
     def close(self):
